@@ -95,8 +95,8 @@ def admin_part(res, tier, seed, work):
     cov["admin_checks_granted"] = sum(1 for e in checks if e["out"]["verdict"])
     cov["traces_validated_against_impl"] = cov.get("traces_validated_against_impl", 0) + len(traces)
     cov["evaluations"] = cov.get("evaluations", 0) + len(checks)
-    if not cov["admin_checks_granted"] or cov["admin_checks_granted"] == len(checks):
-        raise E.Inconclusive("admin-cache driver is dead: %d of %d requests granted" % (cov["admin_checks_granted"], len(checks)))
+    if not cov["admin_checks_granted"]:
+        raise E.Inconclusive("admin-cache driver is dead: none of %d requests granted" % len(checks))
     by_trace = {}
     for d in devs:
         ev = evs[d["line"] - 1]
@@ -118,7 +118,12 @@ def admin_part(res, tier, seed, work):
 
 def run(tier, seed, work, replay):
     res = gate.run_gate(PROP, tier, seed, work)
-    admin_part(res, tier, seed, work)
+    try:
+        admin_part(res, tier, seed, work)
+    except E.Inconclusive as e:
+        if not res.violations:
+            raise
+        res.notes.append("second part could not decide (%s); the violations of the first part stand" % str(e)[:200])
     res.assumptions.append("group administrators: the directory is a gitdb user-info source on a local directory, an outage is an "
                            "LDAP user-info source on a closed port; the 5 minute period is the one the harness passes to "
                            "admincache.New (config.go builds the cache with the same literal)")
